@@ -129,7 +129,11 @@ class LoopyCall(AbstractResultWithNamedArrays):
 
     @override
     def __hash__(self) -> int:
-        return hash((self.translation_unit, frozenset(self.bindings.items()),
+        # The translation unit is left out on purpose: loopy targets cache
+        # their (hash-seed dependent) hash and pickle it, so the hash of an
+        # unpickled translation unit may differ from that of an equal one
+        # built in this process.
+        return hash((frozenset(self.bindings.items()),
                      self.entrypoint, self.tags))
 
     @override
